@@ -16,8 +16,8 @@ type propMeta struct {
 }
 
 var components = map[string]string{
-	"real":  "client.go, request.go, mqtt.go and mqtttest of /repo's working tree (unmodified apart from build-time inserted verifsim.Yield calls and, for the FileSystem store, the rebinding of the os import); Go runtime, bufio, net.Buffers, context, time (fake clock by testing/synctest)",
-	"model": "network connections and dialer (simnet), the broker (refbroker + refcodec, written from the OASIS text), the medium below Persistence (simdisk), os below FileSystem (simos/simfs), the application (harness tasks)",
+	"real":          "client.go, request.go, mqtt.go and mqtttest of /repo's working tree (unmodified apart from build-time inserted verifsim.Yield calls and, for the FileSystem store, the rebinding of the os import); Go runtime, bufio, net.Buffers, context, time (fake clock by testing/synctest)",
+	"model":         "network connections and dialer (simnet), the broker (refbroker + refcodec, written from the OASIS text), the medium below Persistence (simdisk), os below FileSystem (simos/simfs), the application (harness tasks)",
 	"not_exercised": "cmd/mqttc, TLS dialers, the docker-based integration test",
 }
 
@@ -32,141 +32,141 @@ const distinctRule = " distinct = distinct hash of the (goroutine, action-kind) 
 
 var props = map[string]propMeta{
 	"C01": {
-		Level: "exploration",
-		Rule: "each evaluation is one seeded run of the general flow (InitSession on simdisk, reader, 1-3 publisher tasks with 1-8 persisted publishes each, optional requester tasks, swarm-drawn configuration and fault mix; quiescence phase with bounded liveness)." + distinctRule + " non-trivial = at least one fault fired and a message was accepted while down or retransmitted on a later connection",
+		Level:       "exploration",
+		Rule:        "each evaluation is one seeded run of the general flow (InitSession on simdisk, reader, 1-3 publisher tasks with 1-8 persisted publishes each, optional requester tasks, swarm-drawn configuration and fault mix; quiescence phase with bounded liveness)." + distinctRule + " non-trivial = at least one fault fired and a message was accepted while down or retransmitted on a later connection",
 		Assumptions: flowAssumptions,
 		Probes:      []string{"retransmitted", "accepted_while_down", "completed_publish", "short_write_timeout", "write_break", "read_expiry", "dial_fail", "disk_err_before_S", "disk_err_before_D", "disk_err_before_L"},
 		QuickS:      20, ThoroughS: 300,
 	},
 	"C02": {
-		Level: "fault_enumeration",
-		Rule: "family stops: for a seeded base run of the publish flow (both levels, light fault mix) with K storage operations after InitSession, the same seed is re-run 2K times with the process stopped before and after every Save/Delete/Load/List (an interrupted Save or Delete reaches the medium or not by draw), then AdoptSession on the frozen image against the same broker model, 2-4 incarnations with fresh publishes in each, later stops (also inside AdoptSession itself) at drawn operation boundaries; family anywhere: stops at any scheduler step; family wrap: constructed images with the pending ranges at the 14-bit identifier wrap-around; in 35 % of the runs with three or more incarnations PUBACK and PUBCOMP are withheld in every incarnation but the last, so that transfers stay open across several stops while newer ones overtake them; family fs-store: the same session on the real FileSystem store over the simulated os, killed at a drawn system call (entry, exit, or inside the data write after a drawn byte count). Oracle at the adopted client's first Online: lower (accepted, final acknowledgement not handed over) is a subset of the resumed set, which is a subset of upper (lower + still stored), original identifiers and order, stage PUBREL exactly when the stored record is a PUBREL; no warnings or fatal; nothing lost and no exactly-once duplicate after the last incarnation quiesced." + distinctRule + " non-trivial = a transfer was resumed after a restart",
+		Level:       "fault_enumeration",
+		Rule:        "family stops: for a seeded base run of the publish flow (both levels, light fault mix) with K storage operations after InitSession, the same seed is re-run 2K times with the process stopped before and after every Save/Delete/Load/List (an interrupted Save or Delete reaches the medium or not by draw), then AdoptSession on the frozen image against the same broker model, 2-4 incarnations with fresh publishes in each, later stops (also inside AdoptSession itself) at drawn operation boundaries; family anywhere: stops at any scheduler step; family wrap: constructed images with the pending ranges at the 14-bit identifier wrap-around; in 35 % of the runs with three or more incarnations PUBACK and PUBCOMP are withheld in every incarnation but the last, so that transfers stay open across several stops while newer ones overtake them; family fs-store: the same session on the real FileSystem store over the simulated os, killed at a drawn system call (entry, exit, or inside the data write after a drawn byte count). Oracle at the adopted client's first Online: lower (accepted, final acknowledgement not handed over) is a subset of the resumed set, which is a subset of upper (lower + still stored), original identifiers and order, stage PUBREL exactly when the stored record is a PUBREL; no warnings or fatal; nothing lost and no exactly-once duplicate after the last incarnation quiesced." + distinctRule + " non-trivial = a transfer was resumed after a restart",
 		Assumptions: append([]string{"the crash model is a process stop: the Persistence keeps exactly what completed operations wrote, plus possibly the one operation in progress", "sweeps are complete over the storage-operation boundaries of each sampled base run, not over all base runs"}, flowAssumptions...),
 		Probes:      []string{"resumed_after_restart", "second_restart_checked", "stop_before_op", "stop_after_op", "stop_anywhere", "stop_inside_write", "stop_before_syscall", "stop_after_syscall"},
 		QuickS:      25, ThoroughS: 400,
 	},
 	"C03": {
-		Level: "exploration",
-		Rule: "seeded runs of the general flow with exactly-once publishes (70-100 %), faults of C01; oracles: no PUBLISH after the PUBREL record was stored, PUBREL present at every Online, broker delivery log has each exactly-once message at most once." + distinctRule + " non-trivial = a fault fired and a PUBREL or PUBLISH was retransmitted",
+		Level:       "exploration",
+		Rule:        "seeded runs of the general flow with exactly-once publishes (70-100 %), faults of C01; oracles: no PUBLISH after the PUBREL record was stored, PUBREL present at every Online, broker delivery log has each exactly-once message at most once." + distinctRule + " non-trivial = a fault fired and a PUBREL or PUBLISH was retransmitted",
 		Assumptions: flowAssumptions,
 		Probes:      []string{"pubrel_resent", "retransmitted", "unread_input_lost"},
 		QuickS:      20, ThoroughS: 300,
 	},
 	"C05": {
-		Level: "exploration",
-		Rule: "seeded runs with one sequential publisher (exact order) or 2-6 concurrent publishers (per-goroutine and real-time order, wire order = identifier order), both levels, breaks and failed connects; family wrap: constructed images with the pending ranges at the 14-bit wrap-around, 2-3 incarnations, new publishes queued behind the resumed ones; oracles over the wire log: consecutive identifiers at first appearance, resend order, DUP exactly on retransmissions of completely written packets, completion order." + distinctRule + " non-trivial = a fault fired and a retransmission carried DUP",
+		Level:       "exploration",
+		Rule:        "seeded runs with one sequential publisher (exact order) or 2-6 concurrent publishers (per-goroutine and real-time order, wire order = identifier order), both levels, breaks and failed connects; family wrap: constructed images with the pending ranges at the 14-bit wrap-around, 2-3 incarnations, new publishes queued behind the resumed ones; oracles over the wire log: consecutive identifiers at first appearance, resend order, DUP exactly on retransmissions of completely written packets, completion order." + distinctRule + " non-trivial = a fault fired and a retransmission carried DUP",
 		Assumptions: flowAssumptions,
 		Probes:      []string{"resend_carried_dup", "retransmitted", "pending_range_straddles_wrap"},
 		QuickS:      20, ThoroughS: 300,
 	},
 	"C04": {
-		Level: "exploration",
-		Rule: "seeded runs with 1-8 inbound messages (mostly exactly-once) from the reference broker, which retransmits PUBLISH (DUP) and PUBREL on reconnect; breaks after client acknowledgements were written but before the broker consumed them; in half of the runs the broker reuses an identifier as soon as its transaction is complete and keeps an in-flight window of 1-3 messages, in half of those storage errors are concentrated on the late operations of a cycle; oracles: no return of a message while its marker is stored, no second return of a message within one process, a message confirmed with PUBREC was returned at some time (a leftover reception record must not swallow the next message with that identifier), every broker-side handshake completes in the quiescence phase." + distinctRule + " non-trivial = a fault fired and the broker retransmitted an exactly-once PUBLISH",
+		Level:       "exploration",
+		Rule:        "seeded runs with 1-8 inbound messages (mostly exactly-once) from the reference broker, which retransmits PUBLISH (DUP) and PUBREL on reconnect; breaks after client acknowledgements were written but before the broker consumed them; in half of the runs the broker reuses an identifier as soon as its transaction is complete and keeps an in-flight window of 1-3 messages, in half of those storage errors are concentrated on the late operations of a cycle; oracles: no return of a message while its marker is stored, no second return of a message within one process, a message confirmed with PUBREC was returned at some time (a leftover reception record must not swallow the next message with that identifier), every broker-side handshake completes in the quiescence phase." + distinctRule + " non-trivial = a fault fired and the broker retransmitted an exactly-once PUBLISH",
 		Assumptions: flowAssumptions,
 		Probes:      []string{"q2_retransmission_seen", "q2_duplicate_completed", "unread_input_lost", "identifier_reused", "disk_err_before_D"},
 		QuickS:      20, ThoroughS: 300,
 	},
 	"C06": {
-		Level: "exploration",
-		Rule: "seeded well-formed inbound streams (all packet types a broker sends, topics up to the read buffer, payloads 0, around the read buffer +-8, 1-3 buffers; read buffer 16 B..128 KiB) cut into reads by the tape (1-byte reads, coalescing, progress-making deadline expiries at drawn cuts), BigMessage read or skipped; no other fault, so any ReadSlices error is a violation; oracle: returned (topic, message) sequence equals the sent PUBLISH sequence byte for byte. family redelivery: connection loss in the middle of inbound traffic (mostly exactly-once, a third of the messages beyond the read buffer); oracle per connection: the returns follow the PUBLISH packets queued on it in order, only exactly-once retransmissions of a message returned before are passed over, and what follows a suppressed duplicate or an unread BigMessage is not lost." + distinctRule + " non-trivial = a progress-making expiry or a short read fired and a message beyond the read buffer was received",
+		Level:       "exploration",
+		Rule:        "seeded well-formed inbound streams (all packet types a broker sends, topics up to the read buffer, payloads 0, around the read buffer +-8, 1-3 buffers; read buffer 16 B..128 KiB) cut into reads by the tape (1-byte reads, coalescing, progress-making deadline expiries at drawn cuts), BigMessage read or skipped; no other fault, so any ReadSlices error is a violation; oracle: returned (topic, message) sequence equals the sent PUBLISH sequence byte for byte. family redelivery: connection loss in the middle of inbound traffic (mostly exactly-once, a third of the messages beyond the read buffer); oracle per connection: the returns follow the PUBLISH packets queued on it in order, only exactly-once retransmissions of a message returned before are passed over, and what follows a suppressed duplicate or an unread BigMessage is not lost." + distinctRule + " non-trivial = a progress-making expiry or a short read fired and a message beyond the read buffer was received",
 		Assumptions: flowAssumptions,
 		Probes:      []string{"progress_making_expiry", "big_message", "big_message_skipped", "short_read", "duplicate_suppressed", "big_duplicate_suppressed", "return_matches_stream"},
 		QuickS:      20, ThoroughS: 300,
 	},
 	"C07": {
-		Level: "exploration",
-		Rule: "seeded mixed inbound streams with the application pausing after any return (harness park point between a ReadSlices return and the next invocation), BigMessage read or skipped, failing acknowledgement writes, concurrent outbound requests; oracle on the wire log: a PUBACK/PUBREC is written only after ReadSlices was invoked again, carries a returned message's identifier, and every returned message is acknowledged by the end of the quiescence phase; in half of the runs the broker postpones the retransmission of messages the application holds unacknowledged (no deadline in the specification), so that the acknowledgement on the new connection has to come from the client's own pending state; in 40 % the broker reuses identifiers (acknowledgements are matched to the oldest return with that identifier that has none on a wire yet)." + distinctRule + " non-trivial = a fault fired and an acknowledgement was sent on a later connection than the delivery",
+		Level:       "exploration",
+		Rule:        "seeded mixed inbound streams with the application pausing after any return (harness park point between a ReadSlices return and the next invocation), BigMessage read or skipped, failing acknowledgement writes, concurrent outbound requests; oracle on the wire log: a PUBACK/PUBREC is written only after ReadSlices was invoked again, carries a returned message's identifier, and every returned message is acknowledged by the end of the quiescence phase; in half of the runs the broker postpones the retransmission of messages the application holds unacknowledged (no deadline in the specification), so that the acknowledgement on the new connection has to come from the client's own pending state; in 40 % the broker reuses identifiers (acknowledgements are matched to the oldest return with that identifier that has none on a wire yet)." + distinctRule + " non-trivial = a fault fired and an acknowledgement was sent on a later connection than the delivery",
 		Assumptions: flowAssumptions,
 		Probes:      []string{"ack_after_ownership", "ack_on_new_connection", "retransmission_withheld", "identifier_reused"},
 		QuickS:      20, ThoroughS: 300,
 	},
 	"C09": {
-		Level: "exploration",
-		Rule: "input sampling, said plainly: no schedule decides this property, and the one fault dimension it has is a transport that accepts packets in pieces (30 % of the runs: a prefix, then the write deadline; the client has to continue where it stopped). Each run draws a Config (user name without/with password, password only, empty password, will with empty/non-empty message, retain and both QoS flags, keep-alive 0/1/60/65535, clean session) and a client identifier, connects against the reference broker and issues 2-7 requests with boundary-biased arguments (string lengths 1, 127, 128, 65534, 65535; the first and last code point of every UTF-8 length, U+FFFD itself, non-characters and control characters; payloads across the remaining-length width boundaries 127/128, 16383/16384, 2097151/2097152; 1-4 filters; each level limit), decoding every packet on the wire with the independent strict codec and comparing all fields; 35 % of the requests carry an invalid argument (empty, ten kinds of ill-formed UTF-8, U+0000, 65536 bytes, no filters) and must be denied with IsDeny without a byte written or a storage operation; illegal Config strings must be refused by the constructor; denials do not consume capacity (maximum 1; 40 denied subscribes)." + distinctRule + " non-trivial = every run (each draws a distinct configuration and argument set)",
+		Level:       "exploration",
+		Rule:        "input sampling, said plainly: no schedule decides this property, and the one fault dimension it has is a transport that accepts packets in pieces (30 % of the runs: a prefix, then the write deadline; the client has to continue where it stopped). Each run draws a Config (user name without/with password, password only, empty password, will with empty/non-empty message, retain and both QoS flags, keep-alive 0/1/60/65535, clean session) and a client identifier, connects against the reference broker and issues 2-7 requests with boundary-biased arguments (string lengths 1, 127, 128, 65534, 65535; the first and last code point of every UTF-8 length, U+FFFD itself, non-characters and control characters; payloads across the remaining-length width boundaries 127/128, 16383/16384, 2097151/2097152; 1-4 filters; each level limit), decoding every packet on the wire with the independent strict codec and comparing all fields; 35 % of the requests carry an invalid argument (empty, ten kinds of ill-formed UTF-8, U+0000, 65536 bytes, no filters) and must be denied with IsDeny without a byte written or a storage operation; illegal Config strings must be refused by the constructor; denials do not consume capacity (maximum 1; 40 denied subscribes)." + distinctRule + " non-trivial = every run (each draws a distinct configuration and argument set)",
 		Assumptions: []string{"the 268,435,455-byte packet boundary is exercised on persisted publishes of an offline client only (family size-limit: remaining length at the limit -1, +0, +1, +2; the packet goes to the Persistence, a wire log would have to hold 256 MiB); the three smaller remaining-length boundaries are exercised on the wire", "the reference codec is correct with respect to MQTT 3.1.1"},
 		Probes:      []string{"connect_decoded", "decoded_PUBLISH", "decoded_SUBSCRIBE", "decoded_UNSUBSCRIBE", "remaining_length_multi_byte", "invalid_ill-formed-utf8", "invalid_nul", "invalid_over-65535", "invalid_empty", "invalid_no-filters", "illegal_config", "short_write_timeout", "valid_at-268435455", "invalid_over-268435455"},
 		QuickS:      15, ThoroughS: 200,
 	},
 	"C10": {
-		Level: "exploration",
-		Rule: "seeded runs with inbound QoS 1/2 traffic (the reader owes PUBACK, PUBREC, PUBCOMP, PUBREL) plus writer tasks of every request type; write failures of other goroutines at drawn points, read errors, EOF, expiries, failed dials and handshakes; breaks include the half-close (end of stream for the reader while the peer takes nothing more: writes block until their deadline, a local Close or a reset, which comes from the fault budget and is withheld once the reader was handed the end of the stream); family partition: the connection goes silent without reset (in 40 % also with a full send buffer), preferably inside a large inbound packet (only PauseTimeout lets the client notice; the reset that ends the partition is withheld from a client that has those means once faults have stopped); oracle: bounded liveness (the client serves again within L simulated time and S steps once faults stop) and the documented ReadBackoff rules." + distinctRule + " non-trivial = a write failed or timed out",
+		Level:       "exploration",
+		Rule:        "seeded runs with inbound QoS 1/2 traffic (the reader owes PUBACK, PUBREC, PUBCOMP, PUBREL) plus writer tasks of every request type; write failures of other goroutines at drawn points, read errors, EOF, expiries, failed dials and handshakes; breaks include the half-close (end of stream for the reader while the peer takes nothing more: writes block until their deadline, a local Close or a reset, which comes from the fault budget and is withheld once the reader was handed the end of the stream); family partition: the connection goes silent without reset (in 40 % also with a full send buffer), preferably inside a large inbound packet (only PauseTimeout lets the client notice; the reset that ends the partition is withheld from a client that has those means once faults have stopped); oracle: bounded liveness (the client serves again within L simulated time and S steps once faults stop) and the documented ReadBackoff rules." + distinctRule + " non-trivial = a write failed or timed out",
 		Assumptions: flowAssumptions,
 		Probes:      []string{"write_break", "short_write_timeout", "backoff_checked", "read_expiry", "dial_fail", "partition", "partition_inside_packet", "break_kind3", "blocked_write_timed_out"},
 		QuickS:      20, ThoroughS: 300,
 	},
 	"C08": {
-		Level: "exploration",
-		Rule: "seeded runs with concurrent Publish/Subscribe/Unsubscribe/Ping/persisted publishes plus the reader's own writes and resends; every Write may be split at a drawn byte count with a deadline expiry or a hard error, on pipe-like and TCP-like connections; oracle: each connection's bytes parse (strict independent codec) as whole packets that equal their request, success implies a complete packet." + distinctRule + " non-trivial = a write was split (timeout or hard error)",
+		Level:       "exploration",
+		Rule:        "seeded runs with concurrent Publish/Subscribe/Unsubscribe/Ping/persisted publishes plus the reader's own writes and resends; every Write may be split at a drawn byte count with a deadline expiry or a hard error, on pipe-like and TCP-like connections; oracle: each connection's bytes parse (strict independent codec) as whole packets that equal their request, success implies a complete packet." + distinctRule + " non-trivial = a write was split (timeout or hard error)",
 		Assumptions: flowAssumptions,
 		Probes:      []string{"short_write_timeout", "write_break", "request_success"},
 		QuickS:      20, ThoroughS: 300,
 	},
 	"C11": {
-		Level: "exploration",
-		Rule: "seeded runs with 2-7 requester tasks issuing Subscribe/Unsubscribe/Ping (quit nil, open, closed before, closed during), broker failing a subset of filters, connection loss at any point; family ping-slot: 3-5 tasks issuing Ping with every kind of quit behind a busy write lock; family teardown: storage errors in the acknowledgement handlers (record removal only) take a healthy, writable connection down while 3-5 tasks issue requests, Close is a scheduling point of its own, the fault budget is 1-3 so that the last teardown is the one that shows; family id-window: the answer to the first SUBSCRIBE is held while 8,191 UNSUBSCRIBE round trips take the identifier counter once around, then a second SUBSCRIBE with a failing filter; a run that comes to rest with a call outstanding while the environment withholds nothing is judged as the end of a quiescence phase (hung callers); oracles: a result needs that request's own response handed to the client before the return, SubscribeError lists exactly the failed filters in order, every call has returned when the quiescence phase ends." + distinctRule + " non-trivial = a fault fired and a request was answered or a quit was closed during a request",
+		Level:       "exploration",
+		Rule:        "seeded runs with 2-7 requester tasks issuing Subscribe/Unsubscribe/Ping (quit nil, open, closed before, closed during), broker failing a subset of filters, connection loss at any point; family ping-slot: 3-5 tasks issuing Ping with every kind of quit behind a busy write lock; family teardown: storage errors in the acknowledgement handlers (record removal only) take a healthy, writable connection down while 3-5 tasks issue requests, Close is a scheduling point of its own, the fault budget is 1-3 so that the last teardown is the one that shows; family id-window: the answer to the first SUBSCRIBE is held while 8,191 UNSUBSCRIBE round trips take the identifier counter once around, then a second SUBSCRIBE with a failing filter; a run that comes to rest with a call outstanding while the environment withholds nothing is judged as the end of a quiescence phase (hung callers); oracles: a result needs that request's own response handed to the client before the return, SubscribeError lists exactly the failed filters in order, every call has returned when the quiescence phase ends." + distinctRule + " non-trivial = a fault fired and a request was answered or a quit was closed during a request",
 		Assumptions: flowAssumptions,
 		Probes:      []string{"answered_request", "answered_ping", "subscribe_error_mapped", "quit_closed_during_request", "identifier_window_wrapped", "pong_meets_unsubmitted_ping", "goroutine_held_back", "healthy_connection_closed_by_client"},
 		QuickS:      20, ThoroughS: 300,
 	},
 	"C12": {
-		Level: "fault_enumeration",
-		Rule: "family closers: seeded runs of the general flow (publishers, requesters, inbound traffic, fault mix) with 1-3 Close/Disconnect invocations (nil, open and closed quit) started at drawn steps, the later ones right after the first (concurrent); family close-sweep: for a sampled base run of N steps the same seed is re-run with the first closer started at every step 1..min(N,400). Oracles: each call returns (bounded in simulated time and steps) without panic; afterwards every method returns ErrClosed twice, ReadSlices reports ErrClosed, Offline released and Online blocked at every later step and never both released, pending exchanges received ErrClosed and stay open, every connection closed, a successful Disconnect left DISCONNECT as the last packet, no goroutine of the library left (stack census of the bubble). A dial whose context ended meanwhile fails or, in 30 % of the cases, still returns its connection (the cancellation came too late for the dialer)." + distinctRule + " non-trivial = a closer landed while dialing, awaiting CONNACK, resending, with a writer in flight or offline",
+		Level:       "fault_enumeration",
+		Rule:        "family closers: seeded runs of the general flow (publishers, requesters, inbound traffic, fault mix) with 1-3 Close/Disconnect invocations (nil, open and closed quit) started at drawn steps, the later ones right after the first (concurrent); family close-sweep: for a sampled base run of N steps the same seed is re-run with the first closer started at every step 1..min(N,400). Oracles: each call returns (bounded in simulated time and steps) without panic; afterwards every method returns ErrClosed twice, ReadSlices reports ErrClosed, Offline released and Online blocked at every later step and never both released, pending exchanges received ErrClosed and stay open, every connection closed, a successful Disconnect left DISCONNECT as the last packet, no goroutine of the library left (stack census of the bubble). A dial whose context ended meanwhile fails or, in 30 % of the cases, still returns its connection (the cancellation came too late for the dialer)." + distinctRule + " non-trivial = a closer landed while dialing, awaiting CONNACK, resending, with a writer in flight or offline",
 		Assumptions: append([]string{"the close-point sweep is complete over the steps of each sampled base run (up to 400), not over all base runs"}, flowAssumptions...),
 		Probes:      []string{"closer_never-connected", "closer_dialing", "closer_awaiting-connack", "closer_resending", "closer_online", "closer_online-writer-in-flight", "closer_offline", "closer_already-closed", "post_close_probe", "exchange_got_errclosed", "disconnect_succeeded", "dial_completed_after_cancel"},
 		QuickS:      25, ThoroughS: 400,
 	},
 	"C13": {
-		Level: "exploration",
-		Rule: "seeded runs of the general flow (0-2 publishers, requesters, inbound traffic, small read buffers) in which the broker's stream turns hostile 1-4 times: a violation built from a catalogue against the client's current state (reserved and client-only types, five-byte remaining length, zero and foreign identifiers, out-of-order and unsolicited acknowledgements, inconsistent lengths, illegal SUBACK codes, QoS 3, second CONNACK), random bytes, a single-bit mutation of a valid packet, or a stall in the middle of a packet; the handshake reply is replaced likewise (wrong header, reserved flags, session-present on clean, random bytes, refusal, stall). Oracles: no panic (API calls recover; a crash of the process on a library goroutine is reported with its run as replay), every catalogue violation that the client read completely resets the connection with a ReadSlices error, a stall mid-packet ends within PauseTimeout (ReadSlices, ReadAll, handshake), a completion needs its acknowledgement in the input, in order, for a PUBLISH that was written. Mutation and random input is input sampling (coverage guidance is another technique and is not used)." + distinctRule + " non-trivial = a catalogue violation reset the connection or a stall timed out",
+		Level:       "exploration",
+		Rule:        "seeded runs of the general flow (0-2 publishers, requesters, inbound traffic, small read buffers) in which the broker's stream turns hostile 1-4 times: a violation built from a catalogue against the client's current state (reserved and client-only types, five-byte remaining length, zero and foreign identifiers, out-of-order and unsolicited acknowledgements, inconsistent lengths, illegal SUBACK codes, QoS 3, second CONNACK), random bytes, a single-bit mutation of a valid packet, or a stall in the middle of a packet; the handshake reply is replaced likewise (wrong header, reserved flags, session-present on clean, random bytes, refusal, stall). Oracles: no panic (API calls recover; a crash of the process on a library goroutine is reported with its run as replay), every catalogue violation that the client read completely resets the connection with a ReadSlices error, a stall mid-packet ends within PauseTimeout (ReadSlices, ReadAll, handshake), a completion needs its acknowledgement in the input, in order, for a PUBLISH that was written. Mutation and random input is input sampling (coverage guidance is another technique and is not used)." + distinctRule + " non-trivial = a catalogue violation reset the connection or a stall timed out",
 		Assumptions: flowAssumptions,
 		Probes:      []string{"violation_reset", "stall_timed_out", "hostile_random-bytes", "hostile_stall-mid-packet", "hostile_handshake-stall", "hostile_length-over-four-bytes", "hostile_second-CONNACK"},
 		QuickS:      20, ThoroughS: 300,
 	},
 	"C14": {
-		Level: "exploration",
-		Rule: "seeded runs of every request method against every client state reached by the fault mix, with quit timing drawn; oracle over every API return: documented class per method, not-submitted classes leave no byte of the request's unique marker on any connection, quit classes only after quit, rejected persisted publishes never transmitted, never holding a slot and never stored." + distinctRule + " non-trivial = a fault fired and a limbo or not-submitted class was returned",
+		Level:       "exploration",
+		Rule:        "seeded runs of every request method against every client state reached by the fault mix, with quit timing drawn; oracle over every API return: documented class per method, not-submitted classes leave no byte of the request's unique marker on any connection, quit classes only after quit, rejected persisted publishes never transmitted, never holding a slot and never stored." + distinctRule + " non-trivial = a fault fired and a limbo or not-submitted class was returned",
 		Assumptions: flowAssumptions,
 		Probes:      []string{"class_ErrSubmit", "class_ErrBreak", "class_ErrDown", "class_ErrCanceled", "class_ErrAbandoned", "class_ErrMax"},
 		QuickS:      20, ThoroughS: 300,
 	},
 	"C15": {
-		Level: "fault_enumeration",
-		Rule: "always-on monitor: every value handed to Save is checked against the documented layout (packet || 8-byte little-endian sequence number || 4-byte big-endian FNV-1a over both, recomputed independently) with strictly increasing sequence numbers. family single-byte: a seeded base run leaves 1-3 outbound records (PUBLISH and PUBREL, 40-70 bytes) pending at a stop; the same seed is re-run once per case for EVERY byte position x all 255 other values and EVERY truncation length of every record, applied to the image before AdoptSession; family layout: 2-4 publishers at both levels plus inbound exactly-once traffic, i.e. concurrent Save calls from several goroutines; family load-damage: one byte of a Load result is altered (or the result truncated) at drawn instants (resend, marker lookup, client-identifier load, AdoptSession). Oracles: a single-byte alteration or a value under 12 bytes is reported (warning or error), every PUBLISH/PUBREL on a wire equals a packet genuinely saved under that key, CONNECT carries the original client identifier." + distinctRule + " non-trivial = damage was applied and reported",
+		Level:       "fault_enumeration",
+		Rule:        "always-on monitor: every value handed to Save is checked against the documented layout (packet || 8-byte little-endian sequence number || 4-byte big-endian FNV-1a over both, recomputed independently) with strictly increasing sequence numbers. family single-byte: a seeded base run leaves 1-3 outbound records (PUBLISH and PUBREL, 40-70 bytes) pending at a stop; the same seed is re-run once per case for EVERY byte position x all 255 other values and EVERY truncation length of every record, applied to the image before AdoptSession; family layout: 2-4 publishers at both levels plus inbound exactly-once traffic, i.e. concurrent Save calls from several goroutines; family load-damage: one byte of a Load result is altered (or the result truncated) at drawn instants (resend, marker lookup, client-identifier load, AdoptSession). Oracles: a single-byte alteration or a value under 12 bytes is reported (warning or error), every PUBLISH/PUBREL on a wire equals a packet genuinely saved under that key, CONNECT carries the original client identifier." + distinctRule + " non-trivial = damage was applied and reported",
 		Assumptions: append([]string{"the single-byte and truncation enumeration is complete for each sampled base image (all records, all positions, all values), not over all images; detection of truncations of 12 bytes or more and of multi-byte damage is measured, not claimed (32-bit checksum)"}, flowAssumptions...),
 		Probes:      []string{"record_layout_checked", "damage_reported", "load_damaged", "damage_alter_publish", "damage_alter_pubrel", "damage_truncate_publish"},
 		QuickS:      25, ThoroughS: 400,
 	},
 	"C16": {
-		Level: "exploration",
-		Rule: "seeded: a flow run (publishers of both levels, inbound exactly-once traffic) is stopped at a drawn step; 1-3 records of the image (outbound PUBLISH, PUBREL, inbound marker, client identifier) are altered in one byte, truncated or removed and 0-2 stray entries added (foreign key ranges, garbage, valid-looking records); AdoptSession, then a fault-free incarnation with new publishes against the same broker model. family damage-then-restart: damage of outbound records, adoption, more publishes up to small maxima with the final acknowledgements withheld, another stop and a second adoption on the image that still holds what the first one abandoned. Oracles: no fatal (of any adoption), no panic, at least one warning per unusable record, the client comes online and completes what it resumed and what is new within the liveness bounds, resent packets equal genuinely saved records in their original order, no identifier collision." + distinctRule + " non-trivial = damage was applied and the session recovered",
+		Level:       "exploration",
+		Rule:        "seeded: a flow run (publishers of both levels, inbound exactly-once traffic) is stopped at a drawn step; 1-3 records of the image (outbound PUBLISH, PUBREL, inbound marker, client identifier) are altered in one byte, truncated or removed and 0-2 stray entries added (foreign key ranges, garbage, valid-looking records); AdoptSession, then a fault-free incarnation with new publishes against the same broker model. family damage-then-restart: damage of outbound records, adoption, more publishes up to small maxima with the final acknowledgements withheld, another stop and a second adoption on the image that still holds what the first one abandoned. Oracles: no fatal (of any adoption), no panic, at least one warning per unusable record, the client comes online and completes what it resumed and what is new within the liveness bounds, resent packets equal genuinely saved records in their original order, no identifier collision." + distinctRule + " non-trivial = damage was applied and the session recovered",
 		Assumptions: flowAssumptions,
 		Probes:      []string{"damaged_session_recovered", "damage_alter_publish", "damage_remove_publish", "damage_alter_pubrel", "damage_alter_marker", "damage_remove_marker", "damage_alter_clientid", "damage_stray_stray"},
 		QuickS:      25, ThoroughS: 400,
 	},
 	"C19": {
-		Level: "fault_enumeration",
-		Rule: "the real fileSystem methods of /repo on the simulated os (every os call of mqtt.go is a park point). family stops: for a seeded sequence of 2-7 Save/Delete/Load/List calls over 1-3 keys (values 12 B..100 KiB, several MiB in the thorough tier; 1-3 buffers) a dry pass lists the system calls, then the same seed is re-run once per crash point: a process kill at the entry and exit of EVERY system call and inside every data write after EVERY byte count (complete up to 4 KiB per write, 9 sampled counts above); afterwards a fresh FileSystem(dir) on the frozen image must load each key as its complete previous or complete new value (Delete: previous or absent), leave other keys unchanged, list every acknowledged key and nothing Load cannot return; family errors: ENOSPC/EIO/short writes injected at drawn calls, a failed Save leaves the previous value and the store agrees with the model afterwards; family concurrent: 2-4 tasks, one writer per key, every os call a scheduling point, histories of <= 12 operations checked with porcupine against a map (Unknown = inconclusive); invariant at every rename: the source was flushed (Sync) before it became visible." + distinctRule + " non-trivial = a crash point or error was injected, or a concurrent history of more than 3 operations was checked",
+		Level:       "fault_enumeration",
+		Rule:        "the real fileSystem methods of /repo on the simulated os (every os call of mqtt.go is a park point). family stops: for a seeded sequence of 2-7 Save/Delete/Load/List calls over 1-3 keys (values 12 B..100 KiB, several MiB in the thorough tier; 1-3 buffers) a dry pass lists the system calls, then the same seed is re-run once per crash point: a process kill at the entry and exit of EVERY system call and inside every data write after EVERY byte count (complete up to 4 KiB per write, 9 sampled counts above); afterwards a fresh FileSystem(dir) on the frozen image must load each key as its complete previous or complete new value (Delete: previous or absent), leave other keys unchanged, list every acknowledged key and nothing Load cannot return; family errors: ENOSPC/EIO/short writes injected at drawn calls, a failed Save leaves the previous value and the store agrees with the model afterwards; family concurrent: 2-4 tasks, one writer per key, every os call a scheduling point, histories of <= 12 operations checked with porcupine against a map (Unknown = inconclusive); invariant at every rename: the source was flushed (Sync) before it became visible." + distinctRule + " non-trivial = a crash point or error was injected, or a concurrent history of more than 3 operations was checked",
 		Assumptions: []string{"the crash model is a process kill: all completed system calls and the prefix of the interrupted write survive; power loss below that level is not modelled (the flush clause is checked as an ordering invariant at rename)", "rename is atomic, as POSIX requires", "two simultaneous writers of one key are not generated: the statement promises non-interference for different keys and both Saves share one spool name by design", "the crash-point enumeration is complete for each sampled operation sequence, not over all sequences"},
 		Probes:      []string{"stop_before_syscall", "stop_after_syscall", "stop_inside_write", "stopped_save_new_value", "stopped_save_old_value", "save_failed", "history_linearizable", "fs_err_write", "fs_err_rename", "fs_err_sync"},
 		QuickS:      25, ThoroughS: 400,
 	},
 	"C20": {
-		Level: "exploration",
-		Rule: "seeded generation of expectation lists and invocation sequences over a small alphabet (messages, topics and filter sets each equal or different independently, too few and too many calls, quit nil/open/closed), invoked from 1-3 tasks that interleave at the yields inserted into mqtttest (before channel operations, mutex locks and sync/atomic calls), against a recording testing.TB and a reference model (each expectation returns a unique error value, which tells the model which expectation a call consumed); exchange scripts of NewPublishExchangeStub (errors, timed blocks, ErrClosed, indefinite block) run under the fake clock: order, not-before-its-delay, closed exactly when the script says so; ReadSlices stub copies; closed quit yields ErrCanceled. The comparison clause is input sampling: no fault or schedule decides it." + distinctRule + " non-trivial = a deviation was generated or a script was run",
+		Level:       "exploration",
+		Rule:        "seeded generation of expectation lists and invocation sequences over a small alphabet (messages, topics and filter sets each equal or different independently, too few and too many calls, quit nil/open/closed), invoked from 1-3 tasks that interleave at the yields inserted into mqtttest (before channel operations, mutex locks and sync/atomic calls), against a recording testing.TB and a reference model (each expectation returns a unique error value, which tells the model which expectation a call consumed); exchange scripts of NewPublishExchangeStub (errors, timed blocks, ErrClosed, indefinite block) run under the fake clock: order, not-before-its-delay, closed exactly when the script says so; ReadSlices stub copies; closed quit yields ErrCanceled. The comparison clause is input sampling: no fault or schedule decides it." + distinctRule + " non-trivial = a deviation was generated or a script was run",
 		Assumptions: []string{"a failure is 'recorded' when Errorf/Error/Fatalf was called at least once; the number of lines per deviation is not part of the contract", "goroutines interleave at the yields inserted into mqtttest only"},
 		Probes:      []string{"deviation_generated", "exchange_delay_scripted"},
 		QuickS:      15, ThoroughS: 200,
 	},
 	"C17": {
-		Level: "exploration",
-		Rule: "family windows: seeded runs with AtLeastOnceMax/ExactlyOnceMax in {0,1,2,3,-1,20000} and 1-4 concurrent publishers; family wrap: a disk image constructed in the documented record layout with the pending ranges of both levels ending at, straddling or just past identifier 0x3fff (a state a previous process could have left), adopted with maxima in {64,8,-1,20000}, 2-3 incarnations with stops at drawn steps and new publishes across the wrap; oracles: identifiers of unfinished transactions pairwise distinct and non-zero across the four kinds, in-flight count never above the maximum (also counted as records of the level in the Persistence at every Save), ErrMax only with excess and without waiting on the network." + distinctRule + " non-trivial = ErrMax was returned",
+		Level:       "exploration",
+		Rule:        "family windows: seeded runs with AtLeastOnceMax/ExactlyOnceMax in {0,1,2,3,-1,20000} and 1-4 concurrent publishers; family wrap: a disk image constructed in the documented record layout with the pending ranges of both levels ending at, straddling or just past identifier 0x3fff (a state a previous process could have left), adopted with maxima in {64,8,-1,20000}, 2-3 incarnations with stops at drawn steps and new publishes across the wrap; oracles: identifiers of unfinished transactions pairwise distinct and non-zero across the four kinds, in-flight count never above the maximum (also counted as records of the level in the Persistence at every Save), ErrMax only with excess and without waiting on the network." + distinctRule + " non-trivial = ErrMax was returned",
 		Assumptions: flowAssumptions,
 		Probes:      []string{"errmax_returned", "pending_range_straddles_wrap"},
 		QuickS:      20, ThoroughS: 300,
 	},
 	"C18": {
-		Level: "exploration",
-		Rule: "seeded connect histories: dial failures and hangs, breaks at any point of CONNECT/CONNACK/resend, refused CONNACK with any return code, clean session on or off, requests of every type issued in each phase; oracles: CONNECT first and reflecting the Config, nothing before an accepting CONNACK, clean session only until the first established connection, refused connections closed and reported, new requests only after the resend, ErrDown only after trouble, no ReadSlices error that blames a CONNACK of the reference broker (its sessions follow the clean-session lifetime rule: a session created with clean session ends with its connection, so session-present is 0 on the first reconnect and 1 from the second on)." + distinctRule + " non-trivial = a connect failed, was refused, or a reconnect happened",
+		Level:       "exploration",
+		Rule:        "seeded connect histories: dial failures and hangs, breaks at any point of CONNECT/CONNACK/resend, refused CONNACK with any return code, clean session on or off, requests of every type issued in each phase; oracles: CONNECT first and reflecting the Config, nothing before an accepting CONNACK, clean session only until the first established connection, refused connections closed and reported, new requests only after the resend, ErrDown only after trouble, no ReadSlices error that blames a CONNACK of the reference broker (its sessions follow the clean-session lifetime rule: a session created with clean session ends with its connection, so session-present is 0 on the first reconnect and 1 from the second on)." + distinctRule + " non-trivial = a connect failed, was refused, or a reconnect happened",
 		Assumptions: flowAssumptions,
 		Probes:      []string{"refused_connack_closed", "reconnect_without_clean", "dial_fail", "dial_hang"},
 		QuickS:      20, ThoroughS: 300,
@@ -197,25 +197,26 @@ func writeEvidence(prop, tier string, seed uint64, meta propMeta, agg *batchResu
 		samples = append(samples, "no sample recorded")
 	}
 	cov := map[string]any{
-		"evaluations":            agg.Runs,
-		"distinct_nontrivial":    nNontriv,
-		"rule":                   meta.Rule,
-		"samples":                samples,
-		"simulated_runs":         agg.Runs,
-		"runs_per_hour":          int(float64(agg.Runs) / runS * 3600),
-		"seeds_per_hour":         int(float64(agg.Runs) / runS * 3600),
-		"simulated_time_s":       float64(agg.SimTimeNS) / 1e9,
-		"scheduler_steps":        agg.Steps,
-		"faults_fired":           agg.Faults,
-		"probes":                 agg.Probes,
-		"distinct_interleavings": nActs,
+		"evaluations":              agg.Runs,
+		"distinct_nontrivial":      nNontriv,
+		"rule":                     meta.Rule,
+		"samples":                  samples,
+		"simulated_runs":           agg.Runs,
+		"runs_per_hour":            int(float64(agg.Runs) / runS * 3600),
+		"seeds_per_hour":           int(float64(agg.Runs) / runS * 3600),
+		"simulated_time_s":         agg.SimTimeS,
+		"scheduler_steps":          agg.Steps,
+		"faults_fired":             agg.Faults,
+		"probes":                   agg.Probes,
+		"distinct_interleavings":   nActs,
+		"distinct_counting":        "distinct hashes are collected up to 400,000 per worker and kind (interleavings, non-trivial): in long batches both numbers are lower bounds",
 		"distinct_abstract_states": nStates,
-		"inconclusive_runs":      agg.Inconcl,
-		"runs_per_family":        agg.PerFam,
-		"notes_other_properties": agg.Notes,
-		"components":             components,
-		"workers":                workers,
-		"build_s":                buildS,
+		"inconclusive_runs":        agg.Inconcl,
+		"runs_per_family":          agg.PerFam,
+		"notes_other_properties":   agg.Notes,
+		"components":               components,
+		"workers":                  workers,
+		"build_s":                  buildS,
 	}
 	if agg.SweepCases > 0 {
 		cov["sweep_cases"] = agg.SweepCases
